@@ -931,3 +931,40 @@ def ooo_resets_hip(facts):
     if n < 3:
         out.append(ob("hll.ooo-hip", "anchor", "", "unrecognised", "only %d sites found" % n, ""))
     return out
+
+
+def find_result_tests(facts):
+    """the open-addressing find() of the coupon set and of the aux map returns the cell index (>= 0, cell 0 included) when the key
+    is present and the complement of the insertion index (< 0) when it is not: every test of its result distinguishes exactly
+    `< 0` from `>= 0`.  `> 0` / `<= 0` treat a hit in cell 0 as a miss (duplicate coupons counted again, an exception that can be
+    stored but never read back)."""
+    from astu import single_assignment_locals
+    fns = hll_fns(facts)
+    out = []
+    n = 0
+    for pat, fn in sorted(fns.items()):
+        if fn.get("body") is None:
+            continue
+        finds = {d: v for d, v in single_assignment_locals(fn).items() if strip_all(v).get("k") == "Call" and strip_all(v).get("cname") == "find"}
+        if not finds:
+            continue
+        idx = [0]
+
+        def v(x):
+            nonlocal n
+            if x.get("k") == "Bin" and x.get("op") in ("<", ">", "<=", ">=", "==", "!="):
+                for a, b in ((x["l"], x["r"]), (x["r"], x["l"])):
+                    sa, sb = strip_all(a), strip_all(b)
+                    if sa.get("k") == "Ref" and sa.get("d") in finds and sb.get("v") == 0 and sb.get("k") in ("Int", "Cast"):
+                        op = x["op"] if a is x["l"] else {"<": ">", ">": "<", "<=": ">=", ">=": "<=", "==": "==", "!=": "!="}[x["op"]]
+                        key = "%s:find-result-test#%d" % (short(fn.get("patq") or fn["name"]), idx[0])
+                        idx[0] += 1
+                        n += 1
+                        if op in ("<", ">="):
+                            out.append(ob("hll.find-sign", key, x.get("loc", fn["pat"]), "discharged", "index %s 0" % op, fn["qname"]))
+                        else:
+                            out.append(ob("hll.find-sign", key, x.get("loc", fn["pat"]), "violated", "the result of find() is tested with `index %s 0`: find() returns the cell index (0 included) for a hit and ~index (< 0) for a miss, so this test takes a key stored in cell 0 for absent" % op, fn["qname"]))
+        walk(fn["body"], v)
+    if n < 3:
+        out.append(ob("hll.find-sign", "anchor", "", "unrecognised", "only %d tests of a find() result found" % n, ""))
+    return out
